@@ -9,6 +9,7 @@ import (
 	"github.com/freeconf/yang/meta"
 	"github.com/freeconf/yang/node"
 	"github.com/freeconf/yang/nodeutil"
+	"github.com/freeconf/yang/parser"
 	"github.com/freeconf/yang/val"
 	"verif/internal/model"
 	"verif/internal/store"
@@ -223,4 +224,8 @@ func entryDocDefs(m *meta.Module, ep entryPoint) []meta.Definition {
 		return []meta.Definition{ep.def(m)}
 	}
 	return ep.defs(m)
+}
+
+func parserLoad(text string) (*meta.Module, error) {
+	return parser.LoadModuleFromString(nil, text)
 }
